@@ -77,6 +77,27 @@ type sysCfg struct {
 	PreProc []int
 	// Mon: also run the C15 monitors (bounded-response counters become part of the state)
 	Mon bool
+	// ProbeTicks: the pool's ProbeInterval in ticks (0 = 1).  With a probe interval longer than the
+	// queue poll interval the scheduler gets several passes between two probes of an instance.
+	ProbeTicks int `json:",omitempty"`
+	// SyncTicks: the pool's SyncInterval (cloud instance list) in ticks (0 = 1).  Every sync stamps
+	// every worker as updated, which makes the pool discard probe results that were under way; a
+	// longer interval (production: 1 minute against a 10 s probe interval) lets such results through.
+	SyncTicks int `json:",omitempty"`
+}
+
+func (c *sysCfg) syncTicks() int {
+	if c.SyncTicks > 1 {
+		return c.SyncTicks
+	}
+	return 1
+}
+
+func (c *sysCfg) probeTicks() int {
+	if c.ProbeTicks > 1 {
+		return c.ProbeTicks
+	}
+	return 1
 }
 
 func (c *sysCfg) has(class string) bool {
@@ -612,6 +633,11 @@ func (fe *fakeExec) Execute(env map[string]string, cmd string, stdin io.Reader) 
 	}
 	isDetach := strings.HasPrefix(cmd, "crunch-run --detach --stdin-env ")
 	if isDetach {
+		// a slow connection: the command reaches the VM late (nothing has happened on the VM yet)
+		s.slow("req-detach", fe.epoch)
+		if v = s.cloud.find(fe.id); v == nil {
+			return nil, []byte("no route to host"), errors.New("ssh: connect: no route to host")
+		}
 		// the invariants are evaluated on every --detach the dispatcher issues, whatever the VM answers
 		uuid := strings.Trim(strings.TrimPrefix(cmd, "crunch-run --detach --stdin-env "), "' ")
 		s.onDetach(v, uuid)
@@ -805,7 +831,7 @@ type hold struct {
 
 // slow-<kind>: the effect happens on arrival and the answer is late; slowreq-<kind>: the request
 // itself is late (held before it takes effect)
-var slowKinds = []string{"detach", "kill", "list", "lock", "unlock", "cancel", "create", "destroy", "req-lock", "req-unlock", "req-cancel"}
+var slowKinds = []string{"detach", "kill", "list", "lock", "unlock", "cancel", "create", "destroy", "req-lock", "req-unlock", "req-cancel", "req-detach"}
 
 // slow holds the calling dispatcher task back if an answer of this kind is armed to be late.
 func (s *sys) slow(kind string, epoch int) {
@@ -900,8 +926,8 @@ func (s *sys) startDispatcher() {
 	vms.BootProbeCommand = "bootprobe"
 	vms.ImageID = "img"
 	vms.MaxProbesPerSecond = int(time.Second / vTick)
-	vms.ProbeInterval = arvados.Duration(vTick)
-	vms.SyncInterval = arvados.Duration(vTick)
+	vms.ProbeInterval = arvados.Duration(time.Duration(s.cfg.probeTicks()) * vTick)
+	vms.SyncInterval = arvados.Duration(time.Duration(s.cfg.syncTicks()) * vTick)
 	vms.TimeoutBooting = arvados.Duration(tBooting * vTick)
 	vms.TimeoutIdle = arvados.Duration(tIdle * vTick)
 	vms.TimeoutProbe = arvados.Duration(tProbe * vTick)
@@ -1291,7 +1317,7 @@ func (s *sys) enabledEvents() []string {
 		}
 	}
 	slowGate := map[string]bool{
-		"detach": anyLocked, "kill": anyProc, "list": len(fc.vms) > 0, "lock": anyQueued, "req-lock": anyQueued,
+		"detach": anyLocked || anyQueued, "req-detach": anyLocked || anyQueued, "kill": anyProc, "list": len(fc.vms) > 0, "lock": anyQueued, "req-lock": anyQueued,
 		"unlock": anyLocked, "req-unlock": anyLocked, "cancel": anyRunning || anyLocked, "req-cancel": anyRunning || anyLocked,
 		"create": anyLocked || anyQueued, "destroy": len(fc.vms) > 0,
 	}
@@ -1525,7 +1551,7 @@ func (s *sys) canonical() string {
 	fc := s.cloud
 	fmt.Fprintf(&b, "\nCLOUD n=%d cap-left=%d arm[%v %v %v %v %v]", len(fc.vms), s.capLeft(), fc.armCreateQuota, fc.armCreateRate, fc.armCreateFail, fc.armDestroyFail, fc.armListFail)
 	for _, v := range fc.vms {
-		fmt.Fprintf(&b, "\n %s:%s idle=%s boot=%v broken=%v rbroken=%v dreq=%v pre=%v probe=%d", rename[v.id], v.typ, v.tags["IdleBehavior"], v.booted, v.broken, v.rbroken, v.destroyReq, v.pre, satInt(s.ticks-v.lastProbe, 3))
+		fmt.Fprintf(&b, "\n %s:%s idle=%s boot=%v broken=%v rbroken=%v dreq=%v pre=%v probe=%d", rename[v.id], v.typ, v.tags["IdleBehavior"], v.booted, v.broken, v.rbroken, v.destroyReq, v.pre, satInt(s.ticks-v.lastProbe, 2+s.cfg.probeTicks()))
 		if s.cfg.Mon {
 			fmt.Fprintf(&b, " mon=%v/%v/%d", v.brokenTold, v.brokenKnown, v.shutTicks)
 		}
